@@ -1,7 +1,575 @@
-//! C12 driver (stub: not built yet).
-use crate::trace::Args;
+//! C12 driver: sieving polynomials of the three quadratic sieves and the class group sieve.
+//!
+//! For real inputs it builds the factor base, the SIQS polynomial families (every index of the Gray
+//! code walk), MPQS polynomials (D from `sieve_for_polys`, including a D inside the factor base and a
+//! constructed composite pseudo-square) and the classical QS forward/backward root tables, and logs
+//! the polynomial data next to the per-prime root tables.  Nothing is judged here: the trace is
+//! validated by spec/qspoly/QsPolyTrace.tla.
+//!
+//! Events (stateless, every event carries the primes it speaks about):
+//!   fbase      n (signed), size, ps, rs, complete
+//!   siqs_poly  n (signed), a b c (signed), kind, moff (start offset = -moff), idx, afac, ps, r1, r2,
+//!              xn/xa (sampled x: sign, magnitude), ev (v, y of Poly::eval)
+//!   mpqs_poly  n, a, b, c (signed), bb, d, dinv, moff, ps, dp (1/D mod p from batch inversion), r1, r2, ...
+//!   qs_roots   n, nsqrt, c0 (signed), odds, ps, f1 f2 (forward), b1 b2 (backward)
 
-pub fn run(_args: &Args) -> i32 {
-    eprintln!("driver c12 not built yet");
-    2
+use bnum::cast::CastFrom;
+use rand::rngs::StdRng;
+use rand::Rng;
+use serde_json::{json, Map, Value};
+
+use yamaquasi::arith::{self, I256};
+use yamaquasi::fbase::{self, FBase};
+use yamaquasi::{mpqs, qsieve, siqs, Int, Preferences, Uint, Verbosity};
+
+use crate::gen::{is_prime_u64, probably_prime, rand_bits, rng_for};
+use crate::trace::*;
+
+fn di256(x: &I256) -> Value {
+    di(x)
+}
+
+fn merge_err(o: &mut Map<String, Value>, e: Value) {
+    if let Some(m) = e.as_object() {
+        for (k, v) in m {
+            o.insert(k.clone(), v.clone());
+        }
+    }
+}
+
+/// n = p q of exactly `bits` bits in the residue class `r8` modulo 8 (r8 odd), p and q random
+/// (probable) primes of about half the size, p != q: what the sieves receive after trial division.
+/// Primality is not relied upon by the specification.
+fn gen_n(rng: &mut StdRng, bits: u32, r8: u64) -> Uint {
+    loop {
+        let pb = std::cmp::max(bits / 2, 9);
+        let qb = bits - pb + if rng.gen_bool(0.5) { 1 } else { 0 };
+        let p = rand_bits(rng, pb) | Uint::ONE;
+        let q = rand_bits(rng, qb) | Uint::ONE;
+        let n = p * q;
+        if n.bits() != bits || n.digits()[0] % 8 != r8 || p == q {
+            continue;
+        }
+        if !probably_prime(rng, &p) || !probably_prime(rng, &q) {
+            continue;
+        }
+        return n;
+    }
+}
+
+/// indices (into the factor base) of the primes whose roots are logged for one polynomial
+fn sample_primes(rng: &mut StdRng, fb: &FBase, extra: &[usize], full_max: usize) -> Vec<usize> {
+    let len = fb.len();
+    if len <= full_max {
+        return (0..len).collect();
+    }
+    let mut v: Vec<usize> = vec![];
+    for i in 0..len {
+        if fb.p(i) < 1024 {
+            v.push(i);
+        }
+    }
+    v.extend_from_slice(extra);
+    for i in len - 64..len {
+        v.push(i);
+    }
+    for _ in 0..200 {
+        v.push(rng.gen_range(0..len));
+    }
+    v.sort();
+    v.dedup();
+    v
+}
+
+fn log_fbase(out: &mut Out, case: &str, alg: &str, n: &Int, size: u32, fb: &FBase, complete_max: usize) {
+    let complete = fb.len() <= complete_max;
+    out.ev(json!({"op": "fbase", "case": case, "alg": alg, "n": di(n), "nd": n.to_string(), "size": size,
+                  "ps": fb.primes, "rs": fb.sqrts, "complete": complete}));
+}
+
+struct Budget {
+    checks: u64,
+}
+
+/// One SIQS / class group family: polynomials of every Gray code index for the given A.
+#[allow(clippy::too_many_arguments)]
+fn siqs_family(
+    out: &mut Out,
+    rng: &mut StdRng,
+    case: &str,
+    tag: &str,
+    n: &Int,
+    fb: &FBase,
+    factors: &siqs::Factors,
+    a_int: &Uint,
+    mm: usize,
+    unit: bool,
+    full_max: usize,
+    budget: &mut Budget,
+) {
+    let mut prefs = Preferences::default();
+    prefs.verbosity = Verbosity::Silent;
+    let start_offset: i64 = if unit { 0 } else { -(mm as i64) / 2 };
+    let base = |idx: usize| {
+        let mut o = Map::new();
+        o.insert("op".into(), json!("siqs_poly"));
+        o.insert("case".into(), json!(case));
+        o.insert("fam".into(), json!(tag));
+        o.insert("n".into(), di(n));
+        o.insert("nd".into(), json!(n.to_string()));
+        o.insert("ad".into(), json!(a_int.to_string()));
+        o.insert("mm".into(), json!(mm));
+        o.insert("moff".into(), json!(-start_offset));
+        o.insert("idx".into(), json!(idx));
+        o
+    };
+    let r = guard(|| {
+        let s = siqs::SieveSIQS::new(*n, fb, fb.bound() as u64, 0, mm, &prefs);
+        let a = siqs::prepare_a(factors, a_int, fb, start_offset);
+        (s, a)
+    });
+    let (s, a) = match r {
+        Ok(x) => x,
+        Err(e) => {
+            let mut o = base(0);
+            o.insert("stage".into(), json!("prepare_a"));
+            merge_err(&mut o, e);
+            out.ev(Value::Object(o));
+            return;
+        }
+    };
+    let afac = siqs::vhook::a_factors(&a);
+    let aidx = siqs::vhook::a_factors_idx(&a);
+    let nf = afac.len();
+    let npolys: usize = if nf > 1 { 1 << (nf - 1) } else { 1 };
+    let mut pol = match guard(|| siqs::Poly::first(&s, &a)) {
+        Ok(p) => p,
+        Err(e) => {
+            let mut o = base(0);
+            o.insert("stage".into(), json!("first"));
+            merge_err(&mut o, e);
+            out.ev(Value::Object(o));
+            return;
+        }
+    };
+    for idx in 0..npolys {
+        if idx > 0 {
+            if let Err(e) = guard(|| pol.next(&s, &a)) {
+                let mut o = base(idx);
+                o.insert("stage".into(), json!("next"));
+                merge_err(&mut o, e);
+                out.ev(Value::Object(o));
+                return;
+            }
+        }
+        // every index for families of at most 128 polynomials, else the first and last 64
+        if npolys > 128 && idx >= 64 && idx + 64 < npolys {
+            continue;
+        }
+        let mut o = base(idx);
+        let (pa, pb, pc) = siqs::vhook::poly_abc(&pol);
+        o.insert("a".into(), di256(&pa));
+        o.insert("b".into(), di256(&pb));
+        o.insert("c".into(), di256(&pc));
+        o.insert("kind".into(), json!(siqs::vhook::poly_kind(&pol)));
+        o.insert("pidx".into(), json!(siqs::vhook::poly_idx(&pol)));
+        o.insert("afac".into(), json!(afac));
+        let sel = sample_primes(rng, fb, &aidx, full_max);
+        let r1 = siqs::vhook::poly_r1p(&pol);
+        let r2 = siqs::vhook::poly_r2p(&pol);
+        o.insert("ps".into(), json!(sel.iter().map(|&i| fb.p(i)).collect::<Vec<_>>()));
+        o.insert("r1".into(), json!(sel.iter().map(|&i| r1[i]).collect::<Vec<_>>()));
+        o.insert("r2".into(), json!(sel.iter().map(|&i| r2[i]).collect::<Vec<_>>()));
+        budget.checks += sel.len() as u64;
+        // sampled evaluations
+        let m2 = (mm / 2) as i64;
+        let mut xs: Vec<i64> = vec![0, 1, -1, start_offset, start_offset + mm as i64 - 1];
+        for _ in 0..2 {
+            xs.push(start_offset + rng.gen_range(0..mm as i64));
+        }
+        if unit {
+            xs.retain(|&x| x >= 0);
+        }
+        let _ = m2;
+        let mut xn = vec![];
+        let mut xa = vec![];
+        let mut evs = vec![];
+        for &x in &xs {
+            match guard(|| siqs::vhook::poly_eval(&pol, x)) {
+                Ok((v, y)) => {
+                    xn.push(x < 0);
+                    xa.push(du(x.unsigned_abs()));
+                    evs.push(json!({"v": di256(&v), "y": di256(&y)}));
+                }
+                Err(e) => {
+                    merge_err(&mut o, e);
+                    o.insert("stage".into(), json!("eval"));
+                }
+            }
+        }
+        o.insert("xn".into(), json!(xn));
+        o.insert("xa".into(), json!(xa));
+        o.insert("ev".into(), json!(evs));
+        out.ev(Value::Object(o));
+    }
+}
+
+#[allow(clippy::too_many_arguments)]
+fn siqs_case(
+    out: &mut Out,
+    rng: &mut StdRng,
+    case: &str,
+    n: &Int, // signed: negative for the class group variant
+    fbsize: u32,
+    nfacs: usize,
+    mm: usize,
+    want: usize,
+    full_max: usize,
+    max_fams: usize,
+    budget: &mut Budget,
+) {
+    let fb = match guard(|| FBase::new(*n, fbsize)) {
+        Ok(f) => f,
+        Err(e) => {
+            let mut o = Map::new();
+            o.insert("op".into(), json!("fbase"));
+            o.insert("case".into(), json!(case));
+            o.insert("n".into(), di(n));
+            merge_err(&mut o, e);
+            out.ev(Value::Object(o));
+            return;
+        }
+    };
+    log_fbase(out, case, "siqs", n, fbsize, &fb, 640);
+    let sel = guard(|| {
+        let f = siqs::select_siqs_factors(&fb, n, nfacs, mm, Verbosity::Silent);
+        let a_s = siqs::select_a(&f, want, Verbosity::Silent);
+        (f, a_s)
+    });
+    let (factors, a_ints) = match sel {
+        Ok(x) => x,
+        Err(e) => {
+            // selection of A is not part of this property (C20 checks its preconditions): record only
+            let mut o = Map::new();
+            o.insert("op".into(), json!("note"));
+            o.insert("case".into(), json!(case));
+            o.insert("what".into(), json!("select_a failed"));
+            o.insert("detail".into(), e);
+            out.ev(Value::Object(o));
+            return;
+        }
+    };
+    if a_ints.is_empty() {
+        return;
+    }
+    let mut fams: Vec<(String, Uint)> = vec![];
+    fams.push(("first".into(), a_ints[0]));
+    if a_ints.len() > 2 {
+        fams.push(("mid".into(), a_ints[a_ints.len() / 2]));
+    }
+    if a_ints.len() > 1 {
+        fams.push(("last".into(), a_ints[a_ints.len() - 1]));
+    }
+    if nfacs >= 1 && nfacs <= 4 && factors.factors.len() >= nfacs {
+        // As made of the extremes of the candidate pool (smallest / largest primes)
+        let lo: Uint = factors.factors[..nfacs].iter().map(|p| Uint::from(p.p)).product();
+        let hi: Uint = factors.factors[factors.factors.len() - nfacs..].iter().map(|p| Uint::from(p.p)).product();
+        fams.push(("lowest".into(), lo));
+        fams.push(("highest".into(), hi));
+    }
+    fams.truncate(max_fams);
+    let unit = nfacs == 0;
+    for (tag, a) in fams {
+        siqs_family(out, rng, case, &tag, n, &fb, &factors, &a, mm, unit, full_max, budget);
+    }
+}
+
+fn mpqs_case(out: &mut Out, rng: &mut StdRng, case: &str, n: &Uint, fbsize: u32, mm: i64, ds: Vec<(u128, Uint)>, full_max: usize, budget: &mut Budget) {
+    let nint = Int::cast_from(*n);
+    let fb = match guard(|| FBase::new(nint, fbsize)) {
+        Ok(f) => f,
+        Err(_) => return,
+    };
+    log_fbase(out, case, "mpqs", &nint, fbsize, &fb, 640);
+    let inverters: Vec<_> = (0..fb.len()).map(|i| arith::Inverter::new(fb.p(i))).collect();
+    for chunk in ds.chunks(16) {
+        let dvals: Vec<u128> = chunk.iter().map(|x| x.0).collect();
+        let dinvs = match guard(|| mpqs::vhook::batch_dinv(n, &fb, dvals.clone())) {
+            Ok(v) => v,
+            Err(e) => {
+                let mut o = Map::new();
+                o.insert("op".into(), json!("mpqs_poly"));
+                o.insert("case".into(), json!(case));
+                o.insert("stage".into(), json!("batch_inversion"));
+                merge_err(&mut o, e);
+                out.ev(Value::Object(o));
+                continue;
+            }
+        };
+        for (j, (d, r)) in chunk.iter().enumerate() {
+            let mut o = Map::new();
+            o.insert("op".into(), json!("mpqs_poly"));
+            o.insert("case".into(), json!(case));
+            o.insert("n".into(), dn(n));
+            o.insert("nd".into(), json!(n.to_string()));
+            o.insert("dd".into(), json!(d.to_string()));
+            o.insert("d".into(), du128(*d));
+            o.insert("dprime".into(), json!(*d < (1u128 << 64) && is_prime_u64(*d as u64)));
+            o.insert("moff".into(), json!(mm / 2));
+            let pol = match guard(|| mpqs::make_poly(n, *d, r)) {
+                Ok(p) => p,
+                Err(e) => {
+                    o.insert("stage".into(), json!("make_poly"));
+                    merge_err(&mut o, e);
+                    out.ev(Value::Object(o));
+                    continue;
+                }
+            };
+            o.insert("a".into(), dn(&pol.a));
+            o.insert("b".into(), dn(&pol.b));
+            o.insert("c".into(), di(&mpqs::vhook::poly_c(&pol)));
+            o.insert("bb".into(), dn(&mpqs::vhook::poly_bb(&pol)));
+            o.insert("dinv".into(), dn(&mpqs::vhook::poly_dinv(&pol)));
+            let divs: Vec<usize> = (0..fb.len()).filter(|&i| d % fb.p(i) as u128 == 0).collect();
+            let sel = sample_primes(rng, &fb, &divs, full_max);
+            let start_offset = -(mm / 2);
+            let mut r1 = vec![];
+            let mut r2 = vec![];
+            let mut dp = vec![];
+            let mut failed = None;
+            for &i in &sel {
+                let dinv = dinvs[j][i];
+                match guard(|| pol.prepare_prime(fb.p(i), fb.r(i), fb.div(i), &inverters[i], dinv, start_offset as i32)) {
+                    Ok((a, b)) => {
+                        r1.push(a);
+                        r2.push(b);
+                        dp.push(dinv);
+                    }
+                    Err(e) => {
+                        failed = Some((e, fb.p(i)));
+                        break;
+                    }
+                }
+            }
+            if let Some((e, p)) = failed {
+                o.insert("stage".into(), json!("prepare_prime"));
+                o.insert("p".into(), json!(p));
+                merge_err(&mut o, e);
+                out.ev(Value::Object(o));
+                continue;
+            }
+            budget.checks += sel.len() as u64;
+            o.insert("ps".into(), json!(sel.iter().map(|&i| fb.p(i)).collect::<Vec<_>>()));
+            o.insert("r1".into(), json!(r1));
+            o.insert("r2".into(), json!(r2));
+            o.insert("dp".into(), json!(dp));
+            let mut xs: Vec<i64> = vec![0, 1, -1, start_offset, -start_offset - 1];
+            for _ in 0..2 {
+                xs.push(start_offset + rng.gen_range(0..mm));
+            }
+            let mut xn = vec![];
+            let mut xa = vec![];
+            let mut evs = vec![];
+            for &x in &xs {
+                match guard(|| pol.eval(x)) {
+                    Ok((v, y)) => {
+                        xn.push(x < 0);
+                        xa.push(du(x.unsigned_abs()));
+                        evs.push(json!({"v": di(&v), "y": dn(&y)}));
+                    }
+                    Err(e) => {
+                        merge_err(&mut o, e);
+                        o.insert("stage".into(), json!("eval"));
+                    }
+                }
+            }
+            o.insert("xn".into(), json!(xn));
+            o.insert("xa".into(), json!(xa));
+            o.insert("ev".into(), json!(evs));
+            out.ev(Value::Object(o));
+        }
+    }
+}
+
+fn qs_case(out: &mut Out, rng: &mut StdRng, case: &str, n: &Uint, fbsize: u32, full_max: usize, budget: &mut Budget) {
+    let nint = Int::cast_from(*n);
+    let fb = match guard(|| FBase::new(nint, fbsize)) {
+        Ok(f) => f,
+        Err(_) => return,
+    };
+    log_fbase(out, case, "qs", &nint, fbsize, &fb, 640);
+    let mut o = Map::new();
+    o.insert("op".into(), json!("qs_roots"));
+    o.insert("case".into(), json!(case));
+    o.insert("n".into(), dn(n));
+    o.insert("nd".into(), json!(n.to_string()));
+    let qs = match guard(|| qsieve::SieveQS::new(*n, &fb, fb.bound() as u64, false)) {
+        Ok(q) => q,
+        Err(e) => {
+            merge_err(&mut o, e);
+            out.ev(Value::Object(o));
+            return;
+        }
+    };
+    let (nsqrt, c0) = qsieve::vhook::nsqrt(&qs);
+    o.insert("nsqrt".into(), di(&nsqrt));
+    o.insert("c0".into(), di(&c0));
+    o.insert("odds".into(), json!(qsieve::vhook::only_odds(&qs)));
+    let sel = sample_primes(rng, &fb, &[], full_max);
+    let (mut f1, mut f2, mut b1, mut b2) = (vec![], vec![], vec![], vec![]);
+    let r = guard(|| {
+        for &i in &sel {
+            let (x, y) = qsieve::vhook::prepare_prime_fwd(&qs, i);
+            f1.push(x);
+            f2.push(y);
+            let (x, y) = qsieve::vhook::prepare_prime_bck(&qs, i);
+            b1.push(x);
+            b2.push(y);
+        }
+    });
+    if let Err(e) = r {
+        merge_err(&mut o, e);
+        out.ev(Value::Object(o));
+        return;
+    }
+    budget.checks += 2 * sel.len() as u64;
+    o.insert("ps".into(), json!(sel.iter().map(|&i| fb.p(i)).collect::<Vec<_>>()));
+    o.insert("f1".into(), json!(f1));
+    o.insert("f2".into(), json!(f2));
+    o.insert("b1".into(), json!(b1));
+    o.insert("b2".into(), json!(b2));
+    out.ev(Value::Object(o));
+}
+
+pub fn run(args: &Args) -> i32 {
+    let seed = arg_u64(args, "seed", 1);
+    let thorough = arg_str(args, "tier", "quick") == "thorough";
+    let mut out = Out::create(arg_str(args, "out", "trace.ndjson"));
+    let mut rng = rng_for(seed, "c12");
+    let mut budget = Budget { checks: 0 };
+    let full_max = 600;
+
+    // ---------------------------------------------------------------- SIQS
+    let sizes: Vec<u32> = if thorough {
+        vec![20, 24, 33, 40, 48, 56, 64, 65, 72, 80, 89, 90, 100, 110, 119, 120, 130, 140, 149, 150, 160, 169, 170, 180, 190, 199, 200, 210,
+             224, 256, 300, 330, 400]
+    } else {
+        vec![20, 33, 48, 64, 65, 80, 89, 90, 110, 119, 120, 140, 150, 165, 170, 190, 200]
+    };
+    for (si, &bits) in sizes.iter().enumerate() {
+        for (ri, r8) in [1u64, 3, 5, 7].into_iter().enumerate() {
+            let n0 = gen_n(&mut rng, bits, r8);
+            // without multiplier, with the selected one, and (rotating) an even one so that k n covers
+            // the even classes modulo 8 as well
+            let (kauto, _) = fbase::select_multiplier(n0);
+            let mut ks = vec![1u32, kauto];
+            if (si + ri) % 4 == 0 {
+                ks.push([2u32, 4, 6, 8][(si / 4 + ri) % 4]);
+            }
+            ks.dedup();
+            for k in ks {
+                let n = n0 * Uint::from(k);
+                let nint = Int::cast_from(n);
+                let case = format!("siqs/{}/{}/k{}", bits, r8, k);
+                let nfacs = siqs::vhook::nfactors(&n) as usize;
+                let mm = siqs::vhook::interval_size(&n, false) as usize;
+                let fbsize = siqs::vhook::fb_size(&n, false);
+                let want = siqs::vhook::a_value_count(&n).min(40);
+                // large families are expensive to validate: fewer of them
+                let max_fams = if nfacs >= 8 { 1 } else if nfacs >= 6 { 2 } else { 5 };
+                let max_fams = if thorough { max_fams + 1 } else { max_fams };
+                if !thorough && nfacs >= 7 && k != 1 && r8 != 1 {
+                    continue;
+                }
+                siqs_case(&mut out, &mut rng, &case, &nint, fbsize, nfacs, mm, want, full_max, max_fams, &mut budget);
+            }
+        }
+    }
+    // class group variant: negative discriminants, unit form (nfacs = 0) and small families
+    for &(bits, nfacs, blocks) in &[(24u32, 0usize, 16usize), (30, 0, 16), (40, 2, 2), (64, 2, 2), (70, 3, 3), (100, 4, 3)] {
+        for r8 in [1u64, 3, 5, 7] {
+            let n0 = gen_n(&mut rng, bits, r8);
+            // D = -n0 (then D mod 4 is 3, 1, 3, 1: both kinds) and, for the even case, D = -4 n0 / 4
+            let d = -Int::cast_from(n0);
+            let case = format!("cls/{}/{}", bits, r8);
+            let fbsize = yamaquasi::params::clsgrp_fb_size(bits, false);
+            siqs_case(&mut out, &mut rng, &case, &d, fbsize, nfacs, blocks * 32768, 8, full_max, 3, &mut budget);
+        }
+    }
+
+    // ---------------------------------------------------------------- MPQS
+    let msizes: Vec<u32> = if thorough { vec![40, 50, 64, 80, 100, 120, 150, 180, 220, 260, 300] } else { vec![40, 64, 100, 140, 200] };
+    for &bits in &msizes {
+        for r8 in [1u64, 3, 5, 7] {
+            let n0 = gen_n(&mut rng, bits, r8);
+            let (kauto, _) = fbase::select_multiplier(n0);
+            for k in if kauto == 1 || r8 % 4 == 3 { vec![1] } else { vec![1, kauto] } {
+                let n = n0 * Uint::from(k);
+                let case = format!("mpqs/{}/{}/k{}", bits, r8, k);
+                let mm = mpqs::vhook::mpqs_interval_size(&n);
+                let fbsize = yamaquasi::params::mpqs_fb_size(bits, false);
+                // D values around the ideal one, as mpqs() does
+                let a_target: Uint = if n % Uint::from(4u64) == Uint::ONE {
+                    arith::isqrt(n >> 1u32) / Uint::from(mm as u64 / 2)
+                } else {
+                    arith::isqrt(n << 1u32) / Uint::from(mm as u64 / 2)
+                };
+                let d_target = std::cmp::max(Uint::from(3u64), arith::isqrt(a_target));
+                let dt = u128::cast_from(d_target);
+                let mut ds = match guard(|| mpqs::sieve_for_polys(&n, dt - std::cmp::min(dt / 10, 200), 1200)) {
+                    Ok(v) => v,
+                    Err(_) => vec![],
+                };
+                ds.truncate(if thorough { 12 } else { 5 });
+                // small D values (possibly inside the factor base): needs D^2 < n
+                if bits >= 40 {
+                    if let Ok(mut v) = guard(|| mpqs::sieve_for_polys(&n, 3, 400)) {
+                        v.retain(|(d, _)| Uint::from(*d as u64) * Uint::from(*d as u64) < n);
+                        v.truncate(3);
+                        ds.extend(v);
+                    }
+                }
+                mpqs_case(&mut out, &mut rng, &case, &n, fbsize, mm, ds, full_max, &mut budget);
+            }
+        }
+    }
+    // a composite D that passes the pseudo-square test: D = 211 * 229 = 48319 = 3 mod 4 and n = 1 mod D
+    for &bits in &[60u32, 120] {
+        for r4 in [1u64, 3] {
+            let d: u64 = 211 * 229;
+            let mut n;
+            loop {
+                let k = rand_bits(&mut rng, bits - 16);
+                n = Uint::ONE + k * Uint::from(d);
+                if n.bits() == bits && n.digits()[0] % 4 == r4 {
+                    break;
+                }
+            }
+            let case = format!("mpqs/composite-d/{}/{}", bits, r4);
+            let ds = match guard(|| mpqs::sieve_for_polys(&n, d as u128, 1)) {
+                Ok(v) => v,
+                Err(_) => vec![],
+            };
+            let mm = mpqs::vhook::mpqs_interval_size(&n);
+            mpqs_case(&mut out, &mut rng, &case, &n, 120, mm, ds, full_max, &mut budget);
+        }
+    }
+
+    // ---------------------------------------------------------------- classical QS
+    let qsizes: Vec<u32> = if thorough { vec![20, 32, 48, 64, 80, 100, 120, 150, 200, 256, 330, 400] } else { vec![20, 40, 64, 100, 160, 250] };
+    for &bits in &qsizes {
+        for r8 in [1u64, 3, 5, 7] {
+            let n0 = gen_n(&mut rng, bits, r8);
+            let (kauto, _) = fbase::select_multiplier(n0);
+            for k in if kauto == 1 { vec![1] } else { vec![1, kauto] } {
+                let n = n0 * Uint::from(k);
+                let case = format!("qs/{}/{}/k{}", bits, r8, k);
+                let fbsize = yamaquasi::params::qs_fb_size(bits, false).min(if thorough { 20000 } else { 3000 });
+                qs_case(&mut out, &mut rng, &case, &n, fbsize, full_max, &mut budget);
+            }
+        }
+    }
+    let n = out.finish();
+    println!("{}", json!({"events": n, "prime_checks": budget.checks}));
+    0
 }
